@@ -18,6 +18,13 @@
 (*   call    r' = T(x)            callip   T(x, out=y)                     *)
 (*   inv     r' = T.inverse(x)    invip    T.inverse(x, out=z)             *)
 (*   plan    T.init_fftw_plan()   temps    T.create_temporaries()          *)
+(*   planinv / tempsinv   the same two on a KEPT T.inverse object (the one  *)
+(*           every later inv / invip uses): which object of the family      *)
+(*           receives the plan / the temporaries is part of the history -   *)
+(*           the code decides direction / which temporary is the real-space *)
+(*           one per OBJECT, from its class or from its sign option, and    *)
+(*           the two only agree for the default sign.  The sign option of T *)
+(*           ('-' / '+') is a concretisation axis: no expectation changes.  *)
 (*   scribble  the CALLER mutates objects it owns and passed to the        *)
 (*           constructor (axes list, shift list, tmp_r / tmp_f arrays):    *)
 (*           the operator must not change                                  *)
@@ -69,6 +76,7 @@ FullActs ==
   \cup {Act("inv", x, "r") : x \in {"y", "r"}}
   \cup {Act("invip", x, "z") : x \in {"y", "r"}}
   \cup {Act("plan", "-", "-"), Act("temps", "-", "-"), Act("scribble", "-", "-")}
+  \cup {Act("planinv", "-", "-"), Act("tempsinv", "-", "-")}
 SlimActs ==
   UNION {{ActE("call", "x1", "r", e), ActE("callip", "x1", "y", e), ActE("inv", "r", "r", e),
           ActE("invip", "y", "z", e), ActE("plan", "-", "-", e), ActE("planinv", "-", "-", e)} : e \in Efforts}
